@@ -52,6 +52,23 @@ ASSUME LocateLaw == \A blk \in {<<0, 2, 1>>, <<0, 1>>, <<0, 1, 1, 2>>} :
                 /\ RefTextLen(blk, StrLen, RefOffsetOfKind(blk, StrLen, k, "zero", 0)) = 0
                 /\ RefTextLen(blk, StrLen, RefOffsetOfKind(blk, StrLen, k, "last", 0)) = 0
                 /\ \A sk \in 0..StrLen[blk[k]] : RefTextLen(blk, StrLen, RefOffsetOfKind(blk, StrLen, k, "inside", sk)) = StrLen[blk[k]] - sk
+\* names: a by-name pick is the identity exactly when the names are distinct
+ASSUME NameLaw == \A nf \in 1..5 : \A cls \in NameClasses :
+          LET nm == FieldNames(cls, nf) IN
+          (\A i \in 1..nf : FirstOfName(nm, i) = i) <=> NamesDistinct(nm)
+ASSUME NameVectors == /\ FieldNames("dupApart", 4) = <<"Unknown", "f2", "f3", "Unknown">>
+                      /\ ~NamesDistinct(FieldNames("dupAdjacent", 3)) /\ NamesDistinct(FieldNames("dupAdjacent", 1))
+                      /\ FirstOfName(FieldNames("allEqual", 3), 3) = 1
+\* key order classes: both lookup structures are sound on every class, absent probes are absent, and the
+\* first/last "looks dense" test licenses index arithmetic only for the genuinely dense class
+ASSUME KeyOrderLaw == \A n \in 0..7 : \A cls \in KeyOrders :
+          LET ks == KeyColumnOf(cls, n, 10) IN
+          /\ \A k \in Range(ks) : LookupSound(ks, k, HashLookup(ks, k)) /\ \A r \in BinaryLookups(ks, k) : LookupSound(ks, k, r)
+          /\ \A k \in AbsentProbes(ks, 10) : HashLookup(ks, k) = 0 /\ BinaryLookups(ks, k) = {}
+          /\ (cls = "ascDense" => IndexShortcutSound(ks))
+          /\ (n >= 4 /\ cls \in {"permSpan", "dupSpan"} => SpanLooksDense(ks) /\ ~IndexShortcutSound(ks))
+ASSUME KeyVectors == /\ KeyColumnOf("permSpan", 4, 10) = <<10, 12, 11, 13>> /\ KeyColumnOf("dupSpan", 4, 5) = <<5, 6, 6, 8>>
+                     /\ KeyColumnOf("desc", 3, 10) = <<12, 11, 10>> /\ 7 \in AbsentProbes(<<5, 6, 6, 8>>, 5)
 ASSUME Vectors == /\ RecordSize(<<[ty |-> "UInt32", arr |-> 0], [ty |-> "Float32", arr |-> 3]>>) = 16
                   /\ FieldCount(<<[ty |-> "UInt32", arr |-> 0], [ty |-> "Float32", arr |-> 3]>>) = 4
                   /\ RecordSize(<<[ty |-> "UInt8", arr |-> 3], [ty |-> "Int16", arr |-> 0]>>) = 5
